@@ -11,13 +11,21 @@ import (
 )
 
 func (u *UseCase) DeleteOld(ctx context.Context) error {
+	// The horizon is fixed before the registry is read: a transaction that is
+	// not registered yet either holds a reservation that bounds the horizon or
+	// draws a later begin number.
+	horizon := sequence.Horizon()
+
 	tx, err := u.txRepo.Oldest(ctx)
 	if errors.Is(err, fs_db.ErrTxNotFound) {
 		tx = model.Transaction{
-			Seq: sequence.Next(),
+			Seq: horizon,
 		}
 	} else if err != nil {
 		return fmt.Errorf("tx repo oldest: %w", err)
+	}
+	if horizon.Before(tx.Seq) {
+		tx.Seq = horizon
 	}
 
 	files := u.core.DeleteOld(ctx, model.MainTxId, tx.Seq)
